@@ -26,6 +26,8 @@ def run(ctx):
     rule_union(F, R)
     rule_len(F, R)
     rule_source(F, R)
+    from . import c08
+    c08.rule_partition(F, R)   # C17.partition: spans and expression are shifted by the same offset
     if "all" in ctx.configs():
         rule_miette(ctx.facts("all"), R)
 
